@@ -563,7 +563,7 @@ class Interp:
             return v.canon()
         if isinstance(v, Arr):
             return f"{v.num.canon()}@{'/'.join(x if isinstance(x, str) else x[0] for x in v.sel)}" if v.sel else v.num.canon()
-        if isinstance(v, (str, bool)) or v is None:
+        if isinstance(v, (str, bool, int, float)) or v is None:
             return repr(v)
         if isinstance(v, (list, tuple)):
             return "[" + ",".join(self.describe(x) for x in v) + "]"
@@ -579,6 +579,8 @@ class Interp:
             return "?" + v.label
         if type(v).__name__ in ("SStr", "Tok", "MiniFrame", "Col"):
             return repr(v)
+        if type(v).__name__ == "Vec":
+            return v.tag or ("[" + ",".join(self.describe(x) for x in v.items) + "]")
         if isinstance(v, dict):
             return "{" + ",".join(f"{self.describe(k)}:{self.describe(x)}" for k, x in v.items()) + "}"
         return type(v).__name__
@@ -784,6 +786,13 @@ class Interp:
         return None
 
     def compare(self, op, a, b, node):
+        if (type(a).__name__ == "Vec" or type(b).__name__ == "Vec") and not isinstance(op, (ast.Is, ast.IsNot, ast.In, ast.NotIn)):
+            from .libsum import Vec
+            va, vb = type(a).__name__ == "Vec", type(b).__name__ == "Vec"
+            n_ = len(a.items) if va else len(b.items)
+            xs = a.items if va else [a] * n_
+            ys = b.items if vb else [b] * n_
+            return Vec([self.compare(op, x, y, node) for x, y in zip(xs, ys)])
         if isinstance(op, (ast.Is, ast.IsNot)):
             if a is None or b is None:
                 r = (a is None and b is None)
@@ -1024,6 +1033,9 @@ class Interp:
 
     # -- arithmetic ----------------------------------------------------------------
     def binop(self, op, a, b, node):
+        if type(a).__name__ == "Vec" or type(b).__name__ == "Vec":
+            from .libsum import vec_binop
+            return vec_binop(self, op, a, b, node)
         if isinstance(op, (ast.BitAnd, ast.BitOr)):
             if isinstance(a, Mask) or isinstance(b, Mask):
                 return Mask(f"({self.describe_mask(a)}{'&' if isinstance(op, ast.BitAnd) else '|'}{self.describe_mask(b)})")
@@ -1067,6 +1079,10 @@ class Interp:
             x = Num.const(int(x))
         if isinstance(y, bool):
             y = Num.const(int(y))
+        if isinstance(x, ExtRef) and x.dotted.split(".")[0] in ("scipy", "numpy", "math"):
+            x = Num.atom(x.dotted)      # library constant
+        if isinstance(y, ExtRef) and y.dotted.split(".")[0] in ("scipy", "numpy", "math"):
+            y = Num.atom(y.dotted)
         if isinstance(x, Opaque) or isinstance(y, Opaque):
             if isinstance(x, (Num, Opaque)) and isinstance(y, (Num, Opaque)):
                 sym = {ast.Add: "+", ast.Sub: "-", ast.Mult: "*", ast.Div: "/", ast.Pow: "**"}.get(type(op), "?")
@@ -1577,6 +1593,8 @@ class Interp:
                 return Num.const(len(v))
             if isinstance(v, (Arr, Frame)):
                 return Num.atom(f"len({I.describe(v)})")
+            if type(v).__name__ == "Vec":
+                return Num.const(len(v.items))
             raise I.fault("TypeError", n, "object has no len()")
 
         def b_isinstance(I, a, k, n):
